@@ -31,6 +31,10 @@ def arrays_of(o):
         return out
     if hasattr(o, 'ket') and hasattr(o, 'bra'):  # Peps2Layers / DoublePepsTensor
         return arrays_of(o.ket) + (arrays_of(o.bra) if o.bra is not o.ket else [])
+    if hasattr(o, '__dataclass_fields__'):       # EnvCTM_local, EnvCTM_projectors, EnvBP_local, ...
+        return [x for k in o.__dataclass_fields__ if getattr(o, k) is not None for x in arrays_of(getattr(o, k))]
+    if hasattr(o, 'env') and hasattr(o, 'psi'):  # EnvCTM / EnvBP: the environment tensors (and projectors); psi is the caller's object, watched separately
+        return arrays_of(o.env) + (arrays_of(o.proj) if hasattr(o, 'proj') else [])
     return []
 
 
@@ -46,6 +50,10 @@ def digest_of(o):
                     tuple((str(k), digest_of(t)) for k, t in o._patch.items())))
     if hasattr(o, 'ket') and hasattr(o, 'bra'):
         return dig((digest_of(o.ket), digest_of(o.bra)))
+    if hasattr(o, '__dataclass_fields__'):
+        return dig(tuple((k, digest_of(getattr(o, k)) if getattr(o, k) is not None else None) for k in o.__dataclass_fields__))
+    if hasattr(o, 'env') and hasattr(o, 'psi'):
+        return dig((digest_of(o.env), digest_of(o.proj) if hasattr(o, 'proj') else None))
     raise Machinery('cannot digest %s' % type(o))
 
 
@@ -71,7 +79,7 @@ class HeapRecorder:
         new_ids, shares = [], []
         if out == 'ok' and res is not None:
             for r in (res if isinstance(res, (list, tuple)) else [res]):
-                if not (hasattr(r, '_data') or hasattr(r, 'A') or hasattr(r, '_site_data') or hasattr(r, 'ket')):
+                if not (hasattr(r, '_data') or hasattr(r, 'A') or hasattr(r, '_site_data') or hasattr(r, 'ket') or (hasattr(r, 'env') and hasattr(r, 'psi'))):
                     continue
                 ar = arrays_of(r)
                 nid = len(self.objs) + 1
@@ -372,6 +380,93 @@ def peps_driver(args):
     return {'ev': H.ev, 'what': 'peps %s seed=%s' % (sym, seed)}
 
 
+def env_driver(args):
+    """ environments: EnvCTM / EnvBP built on a PEPS (copy, clone, shallow_copy, measurements, update_ / expand_outward_ / reset_ / iterate_, assignment of a tensor of
+    a site), and the MPS environment Env(bra, op, ket) (setup_ / update_env_ / measure): the PEPS / MPS / MPO they are built from are watched like every other object """
+    import yastn
+    import yastn.tn.fpeps as fpeps
+    import yastn.tn.mps as mps
+    sym, seed = args
+    rng = random.Random(seed)
+    ops = yastn.operators.SpinlessFermions(sym=sym)
+    boundary = rng.choice(('obc', 'infinite'))
+    geo = fpeps.SquareLattice(dims=(2, 2), boundary=boundary)
+    vec = {s: ops.vec_n((s[0] + s[1] + seed) % 2) for s in geo.sites()}
+    H = HeapRecorder()
+    psi = fpeps.product_peps(geo, vec)
+    for b in geo.bonds()[:3]:
+        psi.apply_gate_(fpeps.gates.gate_nn_hopping(0.4, 0.2, ops.I(), ops.c(), ops.cp(), b))
+    H.add(psi)
+    ops.config.backend.random_seed(seed)
+    ctm = fpeps.EnvCTM(psi, init=rng.choice(('eye', 'rand', 'dl')))
+    ictm = H.add(ctm)
+    s0, s1 = geo.sites()[0], geo.sites()[-1]
+    opts = {'D_total': 4, 'tol': 1e-12}
+    H.call('fresh', 'EnvCTM.copy', lambda: ctm.copy())
+    H.call('fresh', 'EnvCTM.clone', lambda: ctm.clone())
+    H.call('pure', 'EnvCTM.shallow_copy', lambda: ctm.shallow_copy())
+    H.call('pure', 'EnvCTM.measure_1site', lambda: (ctm.measure_1site(ops.n()), None)[1])
+    H.call('pure', 'EnvCTM.measure_nn', lambda: (ctm.measure_nn(ops.cp(), ops.c()), None)[1])
+    H.call('inplace', 'EnvCTM.update_', lambda: (ctm.update_(opts_svd=dict(opts), moves=rng.choice(('hv', 'lrtb') if boundary == 'obc' else ('hv',))), None)[1], recv=ictm)
+    H.call('pure', 'EnvCTM.measure_2x2', lambda: (ctm.measure_2x2(ops.n(), ops.n(), sites=[(0, 0), (1, 1)]), None)[1])
+    H.call('pure', 'EnvCTM.calculate_corner_svd', lambda: (ctm.calculate_corner_svd(), None)[1])
+    H.call('fresh', 'EnvCTM.copy (after update_)', lambda: ctm.copy())
+    if boundary == 'obc':
+        H.call('inplace', 'EnvCTM.expand_outward_', lambda: ctm.expand_outward_(), recv=ictm)
+        H.call('pure', 'EnvCTM.boundary_mps', lambda: ctm.boundary_mps(n=0, dirn='r'))
+        H.call('pure', 'EnvCTM.measure_nsite_exact', lambda: (ctm.measure_nsite_exact(ops.n(), ops.n(), sites=[(0, 0), (1, 0)]), None)[1])
+
+    def assign():
+        ctm[s0].tl = 2 * ctm[s0].tl
+    H.call('inplace', 'EnvCTM[site].tl = ...', assign, recv=ictm)
+
+    def view_write():
+        t = ctm[s1].t
+        blk = t[t.get_blocks_charge()[0]]
+        blk[...] = blk * 3
+    H.call('inplace', 'block view write into an EnvCTM tensor', view_write, recv=ictm)
+    H.call('inplace', 'EnvCTM.reset_', lambda: ctm.reset_(init='eye'), recv=ictm)
+    H.call('inplace', 'EnvCTM.iterate_', lambda: (ctm.iterate_(opts_svd=dict(opts), max_sweeps=2), None)[1], recv=ictm)
+    # belief propagation
+    bp = fpeps.EnvBP(psi)
+    ibp = H.add(bp)
+    H.call('fresh', 'EnvBP.copy', lambda: bp.copy())
+    H.call('fresh', 'EnvBP.clone', lambda: bp.clone())
+    H.call('pure', 'EnvBP.shallow_copy', lambda: bp.shallow_copy())
+    H.call('inplace', 'EnvBP.update_', lambda: (bp.update_(), None)[1], recv=ibp)
+    H.call('pure', 'EnvBP.measure_1site', lambda: (bp.measure_1site(ops.n()), None)[1])
+    H.call('inplace', 'EnvBP.iterate_', lambda: (bp.iterate_(max_sweeps=3), None)[1], recv=ibp)
+    H.call('pure', 'EnvBP.measure_nn', lambda: (bp.measure_nn(ops.cp(), ops.c()), None)[1])
+    H.call('fresh', 'EnvBP.copy (after iterate_)', lambda: bp.copy())
+    # truncation environments are built per call: they must leave the PEPS alone
+    H.call('pure', 'EnvNTU.bond_metric', lambda: (fpeps.EnvNTU(psi, which=rng.choice(('NN', 'NN+', 'NNN'))).bond_metric(*_qr(psi, geo.bonds()[0]), geo.bonds()[0].site0, geo.bonds()[0].site1, 'lr'), None)[1])
+    bm = H.call('pure', 'EnvBoundaryMPS(psi)', lambda: (fpeps.EnvBoundaryMPS(psi, opts_svd={'D_total': 8}, setup='lr'), None)[1]) if boundary == 'obc' else None
+    # MPS environment
+    N = 4
+    I = mps.product_mpo(ops.I(), N)
+    Hm = mps.generate_mpo(I, [mps.Hterm(1.0, (k, k + 1), (ops.cp(), ops.c())) for k in range(N - 1)] + [mps.Hterm(1.0, (k + 1, k), (ops.cp(), ops.c())) for k in range(N - 1)])
+    phi = mps.random_mps(I, n=(N // 2,) if sym == 'U1' else ((N // 2) % 2,), D_total=4)
+    H.add(Hm)
+    iphi = H.add(phi)
+    box = {}
+
+    def mk():
+        box['env'] = mps.Env(phi, [Hm, phi])
+    H.call('pure', 'mps.Env(bra, [op, ket])', mk)
+    H.call('pure', 'mps.Env.setup_', lambda: (box['env'].setup_(to='first'), None)[1])        # changes the environment (not a registered object), never psi / H
+    H.call('pure', 'mps.Env.measure', lambda: (box['env'].measure(), None)[1])
+    H.call('pure', 'mps.Env.update_env_', lambda: (box['env'].update_env_(0, to='last'), None)[1])
+    H.call('pure', 'mps.measure_1site / measure_2site', lambda: (mps.measure_1site(phi, ops.n(), phi), mps.measure_2site(phi, ops.cp(), ops.c(), phi, bonds='r1'), None)[2])
+    H.call('inplace', 'mps.dmrg_ (one sweep)', lambda: (mps.dmrg_(phi, Hm, method='1site', max_sweeps=1), None)[1], recv=iphi)
+    return {'ev': H.ev, 'what': 'env %s %s seed=%s' % (sym, boundary, seed)}
+
+
+def _qr(psi, bond):
+    from c12 import qr_bond
+    Q0, Q1, _, _ = qr_bond(psi, bond.site0, bond.site1, psi.nn_bond_dirn(bond.site0, bond.site1))
+    return Q0, Q1
+
+
 def main(tier, seed, replay=None):
     rep = Report('C15', tier, seed, 'model_checking')
     if replay:
@@ -386,8 +481,9 @@ def main(tier, seed, replay=None):
     tj = [(syms[i % 7], (i % 3 == 0) and bool(T.SYMS[syms[i % 7]]), seed * 100003 + i, 14 if tier == 'quick' else 18) for i in range(nt)]
     mj = [(('U1', 'Z2', 'dense')[i % 3], seed * 100019 + i, 14 if tier == 'quick' else 20) for i in range(18 if tier == 'quick' else 240)]
     pj = [(('U1', 'Z2')[i % 2], seed * 100043 + i) for i in range(4 if tier == 'quick' else 24)]
+    ej = [(('U1', 'Z2')[i % 2], seed * 100057 + i) for i in range(4 if tier == 'quick' else 24)]
     with ProcessPoolExecutor(max_workers=14) as ex:
-        traces = list(ex.map(tensor_driver, tj, chunksize=2)) + list(ex.map(mps_driver, mj)) + list(ex.map(peps_driver, pj))
+        traces = list(ex.map(tensor_driver, tj, chunksize=2)) + list(ex.map(mps_driver, mj)) + list(ex.map(peps_driver, pj)) + list(ex.map(env_driver, ej))
     acc, diag, res = validate_traces('TraceHeap', 'TraceHeap.cfg', traces, shards=16, timeout=3000)
     for t, rj in zip(traces, validate_traces.last_rejects):
         for l, why in rj[:5]:
